@@ -578,6 +578,8 @@ func (c *cfgComp) Impl(cs Case) []string {
 			out[i] = cfgSer(o.Strs)
 		case "cfg head":
 			out[i] = cfgFile(o.Meta, workRoot)
+		case "cfg input":
+			out[i] = cfgInput(cs.Ops[0].Bytes, o.Strs, strings.TrimPrefix(o.Meta, "#valid\n"))
 		default:
 			out[i] = "bad-op"
 		}
@@ -590,6 +592,9 @@ func (c *cfgComp) Oracle(cs Case, impl []string) string {
 	for i, o := range cs.Ops {
 		if strings.HasPrefix(impl[i], "panic") || strings.HasPrefix(impl[i], "accepted-but") || strings.HasPrefix(impl[i], "accept-but") {
 			return fmt.Sprintf("%s [%s]: %s", o.Name, o.Strs0(), impl[i])
+		}
+		if o.Name == "cfg input" && strings.HasPrefix(o.Meta, "#valid\n") && impl[i] != "accept" {
+			return "a valid syslog input section was rejected: " + strings.Join(o.Strs[:2], " ") + " " + o.Meta
 		}
 		if o.Name == "cfg head" && strings.HasPrefix(o.Meta, "#valid\n") && impl[i] != "accept" {
 			return "a configuration file with a valid head (schema, orchestration, metric keys) was rejected: " + strings.Join(o.Strs, " ")
@@ -830,6 +835,48 @@ func (c *cfgComp) Generate(rng *rand.Rand, n int, emit func(Case)) {
 	var root2 yaml.Node
 	if err := yaml.Unmarshal(sampleConfigText, &root2); err != nil {
 		return
+	}
+	// a syslog input section (Model/CfgFile.lean, Input): address, level mapping of 0-10 entries, extraction steps, on a schema that
+	// has the parser's fields or lacks one of them
+	parserFields := []string{"facility", "level", "time", "host", "app", "pid", "source", "extradata", "log"}
+	for i := 0; i < n/40; i++ {
+		valid := true
+		var sn [][]byte
+		drop := -1
+		if rng.Intn(6) == 0 {
+			drop, valid = rng.Intn(len(parserFields)), false
+		}
+		for j, f := range parserFields {
+			if j != drop {
+				sn = append(sn, []byte(f))
+			}
+		}
+		sn = append(sn, names...)
+		var steps []cStep
+		for _, x := range xGenSteps(rng, 1, 1+rng.Intn(2)) {
+			steps = append(steps, cFromX(x))
+		}
+		if rng.Intn(8) == 0 {
+			if cnt := 0; cMutate(steps, rng.Intn(maxInt(1, cCountSites(steps))), rng.Intn(8), &cnt) != "" {
+				valid = false
+			}
+		} else if rng.Intn(12) == 0 {
+			steps, valid = nil, false
+		}
+		levels := 8
+		if rng.Intn(5) == 0 {
+			levels, valid = []int{0, 1, 7, 9, 10}[rng.Intn(5)], false
+		}
+		addr := "1"
+		if rng.Intn(10) == 0 {
+			addr, valid = "0", false
+		}
+		meta := cStepsYAML(steps)
+		if valid {
+			meta = "#valid\n" + meta
+		}
+		emit(Case{Ops: []Op{{Name: "cfg schema", Bytes: sn}, {Name: "cfg input", Strs: append([]string{addr, strconv.Itoa(levels)}, cStepsToks(steps)...), Meta: meta}},
+			Tag: map[bool]string{true: "input-valid", false: "input-mutated"}[valid]})
 	}
 	// the head of the file (Model/CfgFile.lean): the sample with its schema size, orchestration keys and tag, and metric keys replaced
 	for i := 0; i < n/8; i++ {
@@ -1257,3 +1304,53 @@ func cfgGenHead(rng *rand.Rand, fields []string) (Op, bool) {
 	}
 	return Op{Name: "cfg head", Strs: strs, Meta: meta}, true
 }
+
+
+// cfgInput builds the real sysloginput.Config (extraction steps decoded from YAML), verifies it and, when accepted, makes the
+// parser and the extraction transforms a connection would get and parses lines with them.
+func cfgInput(schemaNames [][]byte, strs []string, stepsYAML string) (res string) {
+	defer func() {
+		if r := recover(); r != nil {
+			res = "panic " + panicKind(r) + ": " + trunc120(fmt.Sprint(r))
+		}
+	}()
+	if len(strs) < 2 {
+		return "bad-op"
+	}
+	names := make([]string, len(schemaNames))
+	for i, b := range schemaNames {
+		names[i] = string(b)
+	}
+	schema := base.MustNewLogSchema(names)
+	cfg := &sysloginput.Config{}
+	cfg.Type = "syslog"
+	cfg.Address = "localhost:5140"
+	if strs[0] != "1" {
+		cfg.Address = "localhost"
+	}
+	nl, _ := strconv.Atoi(strs[1])
+	for j := 0; j < nl; j++ {
+		cfg.LevelMapping = append(cfg.LevelMapping, fmt.Sprintf("lvl%d", j))
+	}
+	if strings.TrimSpace(stepsYAML) != "" && strings.TrimSpace(stepsYAML) != "[]" {
+		if e := util.UnmarshalYamlString(stepsYAML, &cfg.Extractions); e != nil {
+			return "reject"
+		}
+	}
+	if err := cfg.VerifyConfig(schema); err != nil {
+		return "reject"
+	}
+	cfgSeq++
+	mf := promreg.NewMetricFactory(fmt.Sprintf("vin%d_%d_", os.Getpid(), cfgSeq), nil, nil)
+	parser, err := cfg.NewParser(logger.WithField("verif", "cfginput"), base.NewLogAllocator(schema, 1), schema, base.NewLogInputCounter(mf))
+	if err != nil {
+		return "accept-but-parser-fails: " + err.Error()
+	}
+	for _, line := range []string{"<163>1 2019-08-15T15:50:46.866915+03:00 local1 appServ 123 main.log - [tag] web abc id=1 x",
+		"<13>1 - h a - - - k=v; (p) <x>"} {
+		parser.Parse([]byte(line), time.Unix(1, 0))
+	}
+	return "accept"
+}
+
+var cfgSeq int
